@@ -98,6 +98,35 @@ func genLabels(r *Rng) *rfc1035label.Labels {
 	for i := 0; i < n; i++ {
 		l.Labels = append(l.Labels, genLabelName(r))
 	}
+	// a third of the label sets are in "decoded" state (they carry the bytes
+	// they were parsed from), half of those with names edited afterwards:
+	// case-only change, replaced name, dropped name, appended name
+	if r.Chance(1, 3) {
+		d, err := rfc1035label.FromBytes(l.ToBytes())
+		if err == nil {
+			if r.Chance(1, 2) && len(d.Labels) > 0 {
+				i := r.Intn(len(d.Labels))
+				switch r.Intn(4) {
+				case 0:
+					b := []byte(d.Labels[i])
+					for j := range b {
+						if b[j] >= 'a' && b[j] <= 'z' {
+							b[j] -= 32
+							break
+						}
+					}
+					d.Labels[i] = string(b)
+				case 1:
+					d.Labels[i] = genLabelName(r)
+				case 2:
+					d.Labels = append(d.Labels[:i:i], d.Labels[i+1:]...)
+				default:
+					d.Labels = append(d.Labels, genLabelName(r))
+				}
+			}
+			return d
+		}
+	}
 	return l
 }
 
